@@ -235,6 +235,11 @@ func (m *Model) gateCallOf(cond ssa.Value) (call *ssa.Call, recv, lvl ssa.Value,
 			}
 		}
 	}
+	// through the Logger interface: l.Enabled(lvl) / l.EnabledContext(ctx, lvl)
+	if cc := call.Common(); cc.IsInvoke() && (cc.Method.Name() == "Enabled" || cc.Method.Name() == "EnabledContext") &&
+		cc.Method.Pkg() == m.P.Slog.Pkg && len(cc.Args) >= 1 && m.isLevel(cc.Args[len(cc.Args)-1].Type()) {
+		return call, cc.Value, cc.Args[len(cc.Args)-1], true
+	}
 	// Level.Enabled(threshold, ctx, lvl) with threshold = s.level or s.Level()
 	if cal != nil && cal == m.P.Method(m.P.Slog, "Level", "Enabled") && len(args) == 3 {
 		if lg := m.thresholdOwner(args[0]); lg != nil {
